@@ -35,7 +35,8 @@ pub struct Cell {
 fn cell_cfg(c: &Cell) -> Cfg {
     let mut cfg = Cfg::basic(c.role, c.ver, c.as_client);
     cfg.wire_v = c.wire_v;
-    cfg.ka = 0;
+    // half of the cells run with keep-alive on: a rejected packet must not count as activity
+    cfg.ka = if c.flag == Flag::Persistent { 10 } else { 0 };
     // with automatic responses on, "acted upon" is visible in the event list
     if c.role == Role::Any {
         cfg.auto_ping = true;
